@@ -303,7 +303,7 @@ class Runner:
             self.seed, tier.name, len(self.order), self.stats["programs_corpus"], self.stats["programs_generated"],
             [0] + hashes, [0] + layouts, self.workers, bool(launch.aslr_prefix())))
         import glob
-        for old in glob.glob(os.path.join(VERIF, "replays", "C10-%d-*.json" % self.seed)):
+        for old in glob.glob(os.path.join(launch.OUT, "replays", "C10-%d-*.json" % self.seed)):
             os.unlink(old)
         self.pyc = launch.PycCache("c10")
         self.scratch = os.path.join(self.pyc.dir, "scratch")
@@ -424,6 +424,11 @@ class Runner:
                         self.fault_counts["stack_exhaustion_armed"] += 1
                         if "ecursion" in json.dumps(e.get("obs")):
                             self.fault_counts["stack_exhaustion_fired"] += 1
+                        self.stats["stack_fault_calls_max"] = max(self.stats["stack_fault_calls_max"], e.get("calls", 0))
+                        if e.get("aborted"):
+                            # the faulted check used up its call budget: the world ended there
+                            self.stats["stack_fault_overrun_world_ended"] += 1
+                            self.stats["stack_fault_overrun:%s:%s" % (pid, e["stack"])] += 1
                     expect = base.get(pid)
                     if pid in usable and pid not in tainted and expect is not None and "diags" in expect:
                         d = oracle.compare(expect, e["obs"])
@@ -778,9 +783,9 @@ class Runner:
             "level": d["level"], "where": d["where"], "worlds": worlds,
             "observed": {"baseline": d.get("obs_a"), "perturbed": d.get("obs_b")}, "detail": d.get("detail"),
         }
-        os.makedirs(os.path.join(VERIF, "replays"), exist_ok=True)
+        os.makedirs(os.path.join(launch.OUT, "replays"), exist_ok=True)
         tag = hashlib.sha256(json.dumps([pid, lead["mechanism"], d["level"], d["where"]], sort_keys=True).encode()).hexdigest()[:10]
-        path = os.path.join(VERIF, "replays", "C10-%d-%s.json" % (self.seed, tag))
+        path = os.path.join(launch.OUT, "replays", "C10-%d-%s.json" % (self.seed, tag))
         with open(path, "w") as f:
             json.dump(rep, f, indent=1, sort_keys=True)
         v["replay"] = path
@@ -807,6 +812,7 @@ class Runner:
             "property_id": PROP, "tier": self.tier.name, "seed": self.seed, "level": "exploration",
             "wall_s": round(wall, 2), "violations": len(violations),
             "coverage": {
+                "repo": launch.repo_provenance(),
                 "evaluations": int(self.checks_run),
                 "distinct_nontrivial": len(nontrivial),
                 "rule": "evaluation = one check of one program by real pyanalyze in one world (hash seed x heap layout x history prefix x route); "
@@ -843,8 +849,8 @@ class Runner:
                 "layout dependence is explored only as far as seeded heap shifts move small-set iteration order",
             ],
         }
-        os.makedirs(os.path.join(VERIF, "evidence"), exist_ok=True)
-        with open(os.path.join(VERIF, "evidence", "C10.json"), "w") as f:
+        os.makedirs(os.path.join(launch.OUT, "evidence"), exist_ok=True)
+        with open(os.path.join(launch.OUT, "evidence", "C10.json"), "w") as f:
             json.dump(evidence, f, indent=1, sort_keys=True)
         self.log("worlds=%d checks=%d leads=%d groups=%d violations=%d known=%d wall=%.1fs" % (
             self.worlds_run, self.checks_run, self.stats.get("leads", 0), self.stats.get("lead_groups", 0), len(violations), len(known), wall))
